@@ -28,6 +28,7 @@ TREES = ['real_then_complex', 'np_single', 'np_nested_single', 'arr', 'tuple', '
 def plan(tier, seed):
     arith = [{'kind': k, 'op': o, 'refl': r, 'rhs': h, 'shape': s} for k in KINDS for o in OPS for r in (False, True) for h in OPERANDS for s in ([2], [2, 3])]
     arith += [{'kind': k, 'op': o, 'refl': r, 'rhs': h, 'shape': [2], 'int': True} for k in ('QU', 'IQUV') for o in ('add', 'sub', 'mul', 'truediv') for r in (False, True) for h in ('float', 'jnp0d', 'int')]
+    arith += [{'seq': o, 'kind': k, 'int': i} for o in ('fwd', 'rev') for k in ('I', 'IQU') for i in (False, True)]
     unary = [{'kind': k, 'unary': u, 'shape': s} for k in KINDS for u in ('neg', 'abs', 'pos', 'idx_int', 'idx_slice', 'idx_arr', 'idx_mask', 'ravel', 'reshape', 'matmul', 'bad_operands', 'props') for s in ([2], [2, 3])]
     fact = [{'kind': k, 'factory': f, 'shape': s, 'dt': d} for k in KINDS for f in ('zeros', 'ones', 'full', 'normal', 'uniform', 'structure_for', 'from_iquv')
             for s in ([], [2], [2, 3]) for d in ('float32', 'float16', 'int32')]
@@ -135,6 +136,53 @@ def run(phase, cases, ctx):
                     if got.shape != np.shape(want) or not np.allclose(got, want, rtol=3e-6, atol=0):
                         bad(case, 'arith-value', f'component {c}: {got.ravel()[:4]} vs {np.asarray(want).ravel()[:4]}')
                         break
+                    # "component-wise": exactly what the same operator gives on the component array alone (value and dtype)
+                    rc = getattr(r, c.lower()) if rhs_kind == 'same' else r
+                    xc = getattr(x, c.lower())
+                    alone = np.asarray(f(rc, xc) if case['refl'] else f(xc, rc))
+                    if alone.dtype != got.dtype or not np.array_equal(alone, got, equal_nan=True):
+                        bad(case, 'arith-not-componentwise', f'component {c}: container gives {got.dtype} {got.ravel()[:4]}, the component alone gives {alone.dtype} {alone.ravel()[:4]}')
+                        break
+                nontrivial.add(json.dumps(case))
+            elif 'seq' in case:
+                # a history of scalar operations on ONE container: equal-but-differently-typed scalars, signed zeros, in both orders
+                kind = case['kind']
+                d = comp_data(kind, (2, 3))
+                if case.get('int'):
+                    d = {k_: (v * 4).astype(np.int32) for k_, v in d.items()}
+                x = mk(kind, d)
+                hist = [('mul', 3.0), ('mul', 3), ('mul', 3 + 0j), ('pow', 2.0), ('pow', 2), ('add', 1), ('add', 1 + 0j), ('add', 1.0), ('truediv', 0.0),
+                        ('truediv', -0.0), ('truediv', 0), ('truediv', 3), ('truediv', 3.0), ('truediv', 7), ('truediv', 0.3), ('sub', 0.0), ('sub', -0.0), ('mul', -0.0), ('mul', 0.0)]
+                if case['seq'] == 'rev':
+                    hist = hist[::-1]
+                import warnings
+
+                for opn, sc in hist:
+                    f = getattr(operator, opn)
+                    for refl in (False, True):
+                        if opn == 'pow' and refl:
+                            continue
+                        with warnings.catch_warnings():
+                            warnings.simplefilter('ignore')
+                            try:
+                                res = f(sc, x) if refl else f(x, sc)
+                            except Exception as e:  # noqa: BLE001
+                                bad(case, 'arith-raises', f'{"scalar " + opn + " container" if refl else "container " + opn + " scalar"} with {sc!r}: {type(e).__name__}: {e}')
+                                break
+                            ok = True
+                            for c in kind:
+                                xc = getattr(x, c.lower())
+                                alone = np.asarray(f(sc, xc) if refl else f(xc, sc))
+                                got = np.asarray(getattr(res, c.lower()))
+                                if alone.dtype != got.dtype or not np.array_equal(alone, got, equal_nan=True) or not np.array_equal(np.signbit(alone.real), np.signbit(got.real)):
+                                    bad(case, 'arith-not-componentwise', f'{opn} with {sc!r} ({"reflected" if refl else "direct"}), component {c}: container gives {got.dtype} {got.ravel()[:3]}, the component alone gives {alone.dtype} {alone.ravel()[:3]}')
+                                    ok = False
+                                    break
+                            if not ok:
+                                break
+                    else:
+                        continue
+                    break
                 nontrivial.add(json.dumps(case))
             elif 'unary' in case:
                 kind, shape = case['kind'], tuple(case['shape'])
